@@ -115,7 +115,8 @@ inline void arm_timer(double secs)
     it.it_value.tv_usec = (long)((secs - (long)secs) * 1e6);
     setitimer(ITIMER_REAL, &it, nullptr);
 }
-inline int g_strategy = 0; // 0: smt first then sat; 1: sat only; 2: smt only
+inline int g_strategy = 0;
+inline bool g_fp_terms = false; // floating-point terms were created: the eager pipeline goes through z3's qffp tactic // 0: smt first then sat; 1: sat only; 2: smt only
 inline QR query(const z3::expr* extra1, const z3::expr* extra2 = nullptr)
 {
     S->queries++;
@@ -127,12 +128,14 @@ inline QR query(const z3::expr* extra1, const z3::expr* extra2 = nullptr)
     z3::solver q(*C);
     for (int attempt = 0; attempt < 2 && out.r == z3::unknown; ++attempt)
     {
-        bool   use_smt = g_strategy == 2 || (g_strategy == 0 && attempt == 0);
+        bool   use_smt = g_strategy == 2 || (g_strategy == 0 && (attempt == 0) != g_fp_terms);
         if (g_strategy != 0 && attempt == 1) break;
-        double budget  = g_strategy == 0 ? (attempt == 0 ? std::min(3.0, query_s * 0.3) : query_s - (now() - t0)) : query_s;
+        double budget  = g_strategy == 0 ? (attempt == 0 ? (g_fp_terms ? query_s * 0.5 : std::min(3.0, query_s * 0.3)) : query_s - (now() - t0)) : query_s;
         if (budget <= 0.05) break;
         z3::tactic pre = z3::tactic(*C, "simplify") & z3::tactic(*C, "propagate-values") & z3::tactic(*C, "solve-eqs") & z3::tactic(*C, "simplify");
-        q              = use_smt ? (pre & z3::tactic(*C, "smt")).mk_solver() : (pre & z3::tactic(*C, "bit-blast") & z3::tactic(*C, "sat")).mk_solver();
+        q              = use_smt ? (pre & z3::tactic(*C, "smt")).mk_solver()
+                         : g_fp_terms ? (pre & z3::tactic(*C, "qffp")).mk_solver()
+                                      : (pre & z3::tactic(*C, "bit-blast") & z3::tactic(*C, "sat")).mk_solver();
         for (auto& a : *pc) q.add(a);
         if (extra1) q.add(*extra1);
         if (extra2) q.add(*extra2);
@@ -282,13 +285,48 @@ inline bool fork_path()
     return false;
 }
 
+// facts learnt on this path: term == constant (from concretisation / forced branches) and conditions implied by the path
+// condition; both stay valid because the path condition only grows
+inline z3::expr_vector*                  subs_from = nullptr;
+inline z3::expr_vector*                  subs_to   = nullptr;
+inline std::unordered_map<unsigned, int>* implied  = nullptr;
+inline z3::expr_vector*                  keepalive = nullptr;
+inline void learn_equal(const z3::expr& term, const z3::expr& value)
+{
+    if (!subs_from)
+    {
+        subs_from = new z3::expr_vector(*C);
+        subs_to   = new z3::expr_vector(*C);
+    }
+    if (term.is_numeral() || term.is_true() || term.is_false()) return;
+    subs_from->push_back(term);
+    subs_to->push_back(value);
+}
+inline z3::expr apply_known(const z3::expr& e)
+{
+    if (!subs_from || subs_from->size() == 0) return e.simplify();
+    z3::expr x = e;
+    return x.substitute(*subs_from, *subs_to).simplify();
+}
+
 // returns the side this process continues on; may fork
 inline int decide(const z3::expr& c0)
 {
-    z3::expr c = c0.simplify();
+    z3::expr c = apply_known(c0);
     if (c.is_true()) return 1;
     if (c.is_false()) return 0;
+    if (!implied)
+    {
+        implied   = new std::unordered_map<unsigned, int>;
+        keepalive = new z3::expr_vector(*C);
+    }
+    keepalive->push_back(c); // AST ids are recycled when a term dies: cached conditions must stay alive
+    {
+        auto it = implied->find(c.id());
+        if (it != implied->end()) return it->second;
+    }
     budget_check();
+    if (getenv("SBV_QLOG")) fprintf(stderr, "decide[%d]: %s\n", (int)getpid(), c.to_string().substr(0, 300).c_str());
     ensure_model();
     int v = model_eval_bool(c);
     if (v < 0)
@@ -302,6 +340,7 @@ inline int decide(const z3::expr& c0)
         else if (rt.r == z3::unsat)
         {
             pc->push_back(!c);
+            (*implied)[c.id()] = 0;
             return 0;
         }
         else
@@ -313,20 +352,29 @@ inline int decide(const z3::expr& c0)
     z3::expr mine  = v ? c : !c;
     z3::expr other = v ? !c : c;
     QR       ro    = query(&other);
-    if (ro.r == z3::unsat) return v;
+    if (ro.r == z3::unsat)
+    {
+        (*implied)[c.id()] = v;
+        return v;
+    }
     if (ro.r == z3::unknown)
     {
         S->branch_unknown++;
         pc->push_back(mine);
+        (*implied)[c.id()] = v;
         return v;
     }
     if (fork_path())
     {
         mdl = std::move(ro.m);
         pc->push_back(other);
+        (*implied)[c.id()] = !v;
+        learn_equal(c, C->bool_val(!v));
         return !v;
     }
     pc->push_back(mine);
+    (*implied)[c.id()] = v;
+    learn_equal(c, C->bool_val(v != 0));
     return v;
 }
 
